@@ -165,6 +165,17 @@ CHECKS = {
         design="4/C10", technique="Lean 4 proof (use-def closure, decide over generated registries) + compilation of rendered sources",
         note="Partial: only naunet's registered names are modelled; types, the rate expressions themselves and the real "
              "SUNDIALS/Boost headers are covered by compilation against /verif/shim only. F13, F17, F9-compile are known findings."),
+    "C12": dict(
+        text="Theorem toC_preserves (for every parse tree of the translator's grammar and every valuation: the translated C "
+             "tree has the value Fortran assigns to the parse tree - ** to pow with the same operands, intrinsic calls, "
+             "parentheses, signed literals, operator chains), args_preserves, F7_witness. Tie: the tree Lark built for every "
+             "accepted expression is serialised; the model's text must equal the emitted C text; oracle = independent reference "
+             "Fortran reader (right-associative **, unary minus below **) evaluated against the C text at random valuations, on "
+             "grammar-derived expressions and on all rates of the bundled KROME networks; abundance references compared with "
+             "the species aliases; malformed texts must be rejected.",
+        design="4/C12", technique="Lean 4 proof (structural induction over parse trees) + differential check against a reference Fortran reader",
+        note="Partial: Lark's Earley parser (text -> tree) is not modelled; its misreadings are the known findings F7-chain, "
+             "F7-sign and F8. Values compared in binary64 with 1e-9 relative tolerance."),
 }
 
 NOT_YET = {}
